@@ -32,6 +32,35 @@ func init() {
 		v.Prologue(w)
 		u := w.Users
 		S := v.Scale
+		// every other instance: the price feeder reports external liquidity for the oracle pool (a
+		// feeder-gated message), so its assets carry external-liquidity ratios above one and the
+		// oracle pool's slippage is reduced accordingly; a user tries the same message and is refused
+		extLiq := func(mult int64, depth string) {
+			p1, ok := w.App.AmmKeeper.GetPool(w.ReadCtx(), 1)
+			if !ok || w.Dead {
+				return
+			}
+			info := []ammtypes.AssetAmountDepth{}
+			for i, a := range p1.PoolAssets {
+				name := map[string]string{"uatom": "ATOM", "uusdc": "USDC", "uelys": "ELYS"}[a.Token.Denom]
+				info = append(info, ammtypes.AssetAmountDepth{Asset: name, Amount: math.LegacyNewDecFromInt(a.Token.Amount.MulRaw(mult * int64(1+i))), Depth: chain.Dec(depth)})
+			}
+			m := &ammtypes.MsgFeedMultipleExternalLiquidity{Sender: w.Feeder.S(), Liquidity: []ammtypes.ExternalLiquidity{{PoolId: 1, AmountDepthInfo: info}}}
+			b := w.FeederStep(5, m)
+			if !w.Dead && b.Txs[len(b.Txs)-1].OK() {
+				c.Ev("external_liquidity_fed")
+			} else {
+				c.Ev("external_liquidity_feed_failed")
+			}
+			bad := *m
+			bad.Sender = u[5].S()
+			if b := w.Step(5, w.Tx(u[5], &bad)); !w.Dead && b.Txs[1].OK() {
+				c.Ev("external_liquidity_fed_by_a_user")
+			}
+		}
+		if c.Job.Index%2 == 0 {
+			extLiq(10, "0.02")
+		}
 		fresh := chain.MkActor("fresh-recipient").S()
 		mover := func(i int) *chain.TxRecord {
 			a := u[12+i%2]
@@ -188,6 +217,9 @@ func init() {
 				return 5
 			}
 			return g.StdDt(i)
+		}
+		if c.Job.Index%4 == 2 {
+			extLiq(3, "0.5")
 		}
 		if c.Job.Index%3 == 1 && !w.Dead {
 			NewChaos(c, w, g).Run(c.N(120, 400), swapDt)
